@@ -118,7 +118,7 @@ def check_state(desc, sc, pats, flagsets, res):
                 continue
             res.outcomes.add('listings=%d' % min(len(mon.log), 9))
             # (a0) the same rule whichever way the root is given: a directory descriptor instead of a path
-            if len(text) % 2 == 0:
+            if len(text) % 2 == 0 and '..' not in text:
                 fd = os.open(sc.root, os.O_RDONLY | os.O_DIRECTORY)
                 try:
                     with fsx.ScandirMonitor(HORIZON):
@@ -166,7 +166,7 @@ def check_state(desc, sc, pats, flagsets, res):
                 wr = sorted(c for c in cands if refglob.norm(c) in must and c not in acc)
                 wa = sorted(c for c in cands if refglob.norm(c) not in allowed and c in acc)
                 res.n['globmatch_candidates_checked'] += len(cands)
-                if len(text) % 2 == 1:
+                if len(text) % 2 == 1 and '..' not in text:
                     # the matcher applies the same link rule when the root is a directory descriptor
                     fd = os.open(sc.root, os.O_RDONLY | os.O_DIRECTORY)
                     try:
